@@ -148,6 +148,18 @@ def gen_inputs(ctx):
         out.append(("B58DecCheck", T(sz), ("chk-long-zero", n == 193)))
         out.append(("B58DecCheck", T(sz[1:]), ("chk-long-zero-one-deleted", n == 193)))
         out.append(("B58EncCheck", B(bytes(n)), ("enccheck-long-zero", n == 193)))
+    # every two-character string, and the strings that decode to a proper PREFIX of the checksum of the empty payload
+    # (or of a one-byte payload): too short to hold a checksum, whatever they decode to
+    if not q:
+        for a in alpha:
+            for b in alpha:
+                out.append(("B58DecCheck", T(a + b), ("chk-all-2-char",)))
+    for body in [b""] + [bytes([x]) for x in (0, 1, 0x80, 0xff)]:
+        full = body + R.hash256(body)[:4]
+        for cut in range(1, len(full)):
+            if cut < 4 or cut < len(full):
+                out.append(("B58DecCheck", T(R.b58enc(full[:cut]) or "1"), ("chk-prefix-of-a-valid-record", len(body), cut)))
+            out.append(("B58DecCheck", T(R.b58enc(full[len(body):][:cut]) or "1"), ("chk-prefix-of-checksum-only", len(body), cut)))
     # strings shorter than a checksum, over the alphabet
     for n in range(1, 6):
         for _ in range(10 if q else 200):
